@@ -168,7 +168,7 @@ M('U3', 'src/xdoctest/doctest_example.py',
 M('W1', 'src/xdoctest/parser.py', "        except Exception as orig_ex:\n\n            if labeled_lines is None:",
   "        except SyntaxError as orig_ex:\n\n            if labeled_lines is None:", ['C14'],
   'parse wraps only SyntaxError')
-M('I1', 'src/xdoctest/utils/util_import.py', """        subdir = dirname(modpath)
+M('I1', 'src/xdoctest/utils/util_import.py', """        subdir = os.path.normpath(dirname(modpath))
         while subdir and subdir != base:
             if not exists(join(subdir, '__init__.py')):
                 return False
@@ -252,6 +252,22 @@ M('F22R', 'src/xdoctest/utils/util_import.py', """        base = os.path.normpat
         subdir = os.path.normpath(dirname(modpath))
 """, """        subdir = dirname(modpath)
 """, ['C17'], 'F22 repair reverted: a search path entry with a trailing separator resolves nothing')
+M('F23R', 'src/xdoctest/directive.py', """                         for line in text.splitlines() if line.strip())""", """                         for line in text.splitlines())""", ['C04'], 'F23 repair reverted: blank prompt lines after a block directive turn it into an inline one')
+M('F24R', 'src/xdoctest/static_analysis.py', """    # Only iterate through non-blank lines otherwise tokenize will stop short
+    iterable = (line for line in lines if line.strip())
+    def _readline():
+        return next(iterable)
+    try:
+        for t in tokenize.generate_tokens(_readline):
+            if t[0] == tokenize.COMMENT:""", """    iterable = (line for line in lines if line)
+    def _readline():
+        return next(iterable)
+    try:
+        for t in tokenize.generate_tokens(_readline):
+            if t[0] == tokenize.COMMENT:""", ['C04'], 'F24 repair reverted: comments after a whitespace-only line are not seen')
+M('F25R', 'src/xdoctest/static_analysis.py', """    lines = list(lines)
+    iterable = (line for line in lines if line.strip())""", """    lines = list(lines)
+    iterable = (line for line in lines if line)""", ['C04'], 'F25 repair reverted: a whitespace-only continuation line breaks statement splitting')
 M('F17R', 'src/xdoctest/doctest_example.py', """                part_directive = None
                 try:
                     try:
